@@ -1,10 +1,11 @@
 /- registry of line-protocol handlers; `Driver/Main.lean` only loops over stdin -/
 import Optyx.Drive.Core
+import Optyx.Drive.LP
 
 namespace Optyx.Drive
 
 def handlers : List (String → List Sexp → Option String) :=
-  [handleCore]
+  [handleCore, handleLP]
 
 def dispatch (line : String) : String :=
   match Sexp.parseLine line with
